@@ -158,3 +158,118 @@ Proof.
   destruct asis_connect_fails as [Ts [n [H1 H2]]].
   exact (ex_intro _ Ts (ex_intro _ n (conj H1 (not_good_of_fail _ _ _ _ _ H2)))).
 Qed.
+
+(* ---------------- a session belongs to one connection only ---------------- *)
+
+Definition ev_sess (e : event) : option nat :=
+  match e with
+  | ReqMod _ _ s _ => Some s
+  | ResMod _ _ _ s _ _ _ _ => Some s
+  | _ => None
+  end.
+
+Lemma spec_conn_sess reqs k b c e s :
+  In e (fst (spec_conn k b c reqs)) -> ev_sess e = Some s -> s = k /\ reqs <> [].
+Proof.
+  intros Hin Hs. split.
+  - pose proof (proj1 (cl_session_iff k _) (spec_session reqs k b c) e Hin) as H.
+    destruct e; try discriminate Hs; cbn in Hs, H; congruence.
+  - intros ->. cbn in Hin. destruct Hin as [<-|[]]. discriminate Hs.
+Qed.
+
+Lemma spec_run_sess_ge : forall conns k b c i T e s,
+  nth_error (spec_run k b c conns) i = Some T -> In e T -> ev_sess e = Some s -> k <= s.
+Proof.
+  induction conns as [|reqs cs IH]; intros k b c i T e s Hn Hin Hs; [destruct i; discriminate Hn|].
+  cbn [spec_run] in Hn.
+  pose proof (spec_conn_sess reqs k b c) as Hc.
+  destruct (spec_conn k b c reqs) as [T0 n0]. cbn [fst] in Hc.
+  destruct i as [|i]; cbn in Hn.
+  - inversion Hn; subst. destruct (Hc e s Hin Hs) as [-> _]. lia.
+  - specialize (IH _ _ _ _ _ _ _ Hn Hin Hs). destruct reqs; lia.
+Qed.
+
+Lemma spec_run_sess_lt : forall conns k b c i j T1 T2 e1 e2 s1 s2,
+  i < j ->
+  nth_error (spec_run k b c conns) i = Some T1 -> nth_error (spec_run k b c conns) j = Some T2 ->
+  In e1 T1 -> In e2 T2 -> ev_sess e1 = Some s1 -> ev_sess e2 = Some s2 -> s1 < s2.
+Proof.
+  induction conns as [|reqs cs IH]; intros k b c i j T1 T2 e1 e2 s1 s2 Hij H1 H2 Hi1 Hi2 Hs1 Hs2;
+    [destruct i; discriminate H1|].
+  cbn [spec_run] in H1, H2.
+  pose proof (spec_conn_sess reqs k b c) as Hc.
+  destruct (spec_conn k b c reqs) as [T0 n0]. cbn [fst] in Hc.
+  destruct j as [|j]; [lia|]. cbn in H2.
+  destruct i as [|i]; cbn in H1.
+  - inversion H1; subst. destruct (Hc e1 s1 Hi1 Hs1) as [-> Hne].
+    pose proof (spec_run_sess_ge _ _ _ _ _ _ _ _ H2 Hi2 Hs2) as Hge.
+    destruct reqs; [congruence|lia].
+  - eapply (IH _ _ _ i j); eauto. lia.
+Qed.
+
+Lemma m_session_by_no_other conns Ts n :
+  model_obs fixed conns = Some (Ts, n) ->
+  forall i j T1 T2 e1 e2 s1 s2, i <> j ->
+    nth_error Ts i = Some T1 -> nth_error Ts j = Some T2 ->
+    In e1 T1 -> In e2 T2 -> ev_sess e1 = Some s1 -> ev_sess e2 = Some s2 -> s1 <> s2.
+Proof.
+  intros Hrun. destruct (run_is_spec conns Ts n Hrun) as [-> _].
+  intros i j T1 T2 e1 e2 s1 s2 Hij H1 H2 Hi1 Hi2 Hs1 Hs2. unfold spec_obs in *.
+  destruct (Nat.lt_ge_cases i j) as [Hlt|Hge].
+  - pose proof (spec_run_sess_lt _ _ _ _ _ _ _ _ _ _ _ _ Hlt H1 H2 Hi1 Hi2 Hs1 Hs2). lia.
+  - assert (Hlt : j < i) by lia.
+    pose proof (spec_run_sess_lt _ _ _ _ _ _ _ _ _ _ _ _ Hlt H2 H1 Hi2 Hi1 Hs2 Hs1). lia.
+Qed.
+
+(* ---------------- a PROPFAIL names a clause that does fail ---------------- *)
+
+(* what clause [c] says of one connection *)
+Definition clause_prop (c : clause) (k b : nat) (reqs : list req) (T : list event) : Prop :=
+  match c with
+  | CScope => P_scope b (length reqs) T
+  | CHijack => P_hijack T
+  | CReqmod => forall i q, nth_error reqs i = Some q -> P_reqmod_ex (ex (b + i) T)
+  | CResmod => forall i q, nth_error reqs i = Some q -> P_resmod_ex q (ex (b + i) T)
+  | CSession => P_session k T
+  | CNoContext => P_linked T
+  | CError => forall i q, nth_error reqs i = Some q -> P_error_ex q (ex (b + i) T)
+  | CSkip => forall i q, nth_error reqs i = Some q -> P_skip_ex q (ex (b + i) T)
+  | CRelay => forall i q, nth_error reqs i = Some q -> P_relay_ex q (ex (b + i) T)
+  | CCtxFresh => True      (* decided over the whole case, not per connection *)
+  end.
+
+Lemma per_req_lift (f : req -> list event -> bool) (P : req -> list event -> Prop) b reqs T :
+  (forall q E, f q E = true <-> P q E) ->
+  (per_req f b reqs T = true <-> forall i q, nth_error reqs i = Some q -> P q (ex (b + i) T)).
+Proof.
+  intros H. rewrite per_req_iff. split; intros G i q Hn; apply H, G, Hn.
+Qed.
+
+Theorem conn_fail_names_failing_clause k b reqs T c :
+  conn_fail k b reqs T = Some c -> ~ clause_prop c k b reqs T.
+Proof.
+  unfold conn_fail.
+  destruct (forallb (in_range b (length reqs)) T) eqn:E0; cbn [negb];
+    [|intros E; inversion E; subst; cbn; rewrite <- scope_iff; congruence].
+  destruct (cl_hijack T) eqn:E1; cbn [negb];
+    [|intros E; inversion E; subst; cbn; rewrite <- cl_hijack_iff; congruence].
+  destruct (cl_reqmod b reqs T) eqn:E2; cbn [negb];
+    [|intros E; inversion E; subst; cbn; unfold cl_reqmod in E2;
+      rewrite <- (per_req_lift (fun _ => cl_reqmod_ex) (fun _ => P_reqmod_ex) b reqs T (fun _ => cl_reqmod_ex_iff)); congruence].
+  destruct (cl_resmod b reqs T) eqn:E3; cbn [negb];
+    [|intros E; inversion E; subst; cbn; unfold cl_resmod in E3;
+      rewrite <- (per_req_lift cl_resmod_ex P_resmod_ex b reqs T cl_resmod_ex_iff); congruence].
+  destruct (cl_session k T) eqn:E4; cbn [negb];
+    [|intros E; inversion E; subst; cbn; rewrite <- cl_session_iff; congruence].
+  destruct (cl_linked T) eqn:E5; cbn [negb];
+    [|intros E; inversion E; subst; cbn; rewrite <- cl_linked_iff; congruence].
+  destruct (cl_error b reqs T) eqn:E6; cbn [negb];
+    [|intros E; inversion E; subst; cbn; unfold cl_error in E6;
+      rewrite <- (per_req_lift cl_error_ex P_error_ex b reqs T cl_error_ex_iff); congruence].
+  destruct (cl_skip b reqs T) eqn:E7; cbn [negb];
+    [|intros E; inversion E; subst; cbn; unfold cl_skip in E7;
+      rewrite <- (per_req_lift cl_skip_ex P_skip_ex b reqs T cl_skip_ex_iff); congruence].
+  destruct (cl_relay b reqs T) eqn:E8; cbn [negb];
+    [discriminate|intros E; inversion E; subst; cbn; unfold cl_relay in E8;
+      rewrite <- (per_req_lift cl_relay_ex P_relay_ex b reqs T cl_relay_ex_iff); congruence].
+Qed.
